@@ -31,7 +31,7 @@ def _case(draw):
     keys = sorted({c['key'] if c['key'] is not None else c['name'] for c in calls})
     behave = {k: 'exc' for k in keys if draw(st.integers(0, 3)) == 0}
     return {'cfg': cfg, 'calls': calls, 'behave': behave, 'order': draw(st.sampled_from(['fwd', 'rev'])),
-            'bdur': bdur, 'idur': 0, 'mutate': None, 'fresh': 0}
+            'bdur': bdur, 'idur': draw(st.sampled_from([0, 0, 4 * H.U, 0.25])), 'mutate': None, 'fresh': 0}
 
 
 def strategy(tier):
